@@ -37,3 +37,22 @@ Definition holds_gymnax (c : C01Check.case) : bool :=
   let '(obs, st) := l2x_reset E (c_reset_key c) in
   state_eqb (fst st) (c_reset c) && Qeqb_list obs (i_obs (c_reset c))
   && x_steps E (imp_state (c_reset c)) (c_steps c) (c_outs c).
+
+(* LeraxToGymEnv as an object (AdapterSM): a whole history of operations on ONE adapter - reset(seed=...), reset(), step(a) in any
+   order - against the state machine; seeds are given as root key paths. *)
+From Lerax Require Import AdapterSM.
+Record smcase := {
+  m_tab : tab; m_raw : rawtbl; m_stack : list wd;
+  m_key0 : kpath;                                   (* the key a new adapter starts with (jr.key(0)) *)
+  m_ops : list (@l2g_op Q);
+  m_outs : list imp_out }.
+
+Definition sm_out_ok (m : @l2g_out (ws Z) (list Q)) (o : imp_out) : bool :=
+  match m with
+  | OutReset s obs info => state_eqb s o && Qeqb_list obs (i_obs o) && Qeq_bool info (i_info o)
+  | OutStep out => out_agree out o
+  | OutError => false
+  end.
+Definition agree_sm (c : smcase) : bool :=
+  let E := wrap_d (m_stack c) (tab_env (m_tab c) (m_raw c)) in
+  forallb2 sm_out_ok (l2g_trace E (l2g_new (m_key0 c)) (m_ops c)) (m_outs c).
